@@ -25,28 +25,44 @@ import treeutil as tu
 from common import time_limit, REPO
 
 ID = "C06"
-GEN_DEPENDS = ["PyBits"]
+GEN_DEPENDS = ["PyBits", "C06Kernels"]
 RULE = ("operation histories (<= 14 ops) over 2-5 TreeArrays built from random trees (3-7 taxa, polytomies, basal "
-        "bifurcations, None lengths, weights, ultrametric trees with node ages): add/insert(any index)/update/extend/+=/+ "
+        "bifurcations, None lengths, weights, ultrametric trees with node ages): add (add_tree / append / add_trees)/insert(any index)/update/extend/+=/+ "
         "incl. empties, self-merges, reading several sources in one call (paths, handles, one string) with a burn-in, both rootings, explicit and implicit rooting, matching and mismatching settings, with interim "
         "summaries (consensus / MCC / summarize_splits_on_tree / restore_tree / the per-split summary tables in either order / "
         "frequencies) between the additions, and the same trees built one at a time next to the merged master; at the end every "
         "array's per-split edge-length and node-age summaries (tables and target-tree annotations: mean, median, sd, range) are read "
         "before anything refreshes the frequencies and compared with brute force; "
-        "SumTrees schedules = (file->worker assignment, arrival order) on the real collation/worker code; thorough adds every "
+        "SumTrees schedules = (file->worker assignment, arrival order) on the real collation/worker code, 0-4 files x 2-5 workers (more workers "
+        "than files, no file at all, files entirely swallowed by the burn-in); the model receives the complete files and applies the burn-in in "
+        "its own reading loop; thorough adds every "
         "schedule for <= 3 files x <= 4 workers, every partition/arrival order of <= 4 trees into <= 3 parts, and real "
         "multi-process CLI runs (-M, -m 2, -m 3, five times each, every other one pinned to one CPU); schedules with asynchronous "
-        "delivery of the work items (interleavings of deliveries and worker queue operations on the real worker code, sampled; "
-        "exhaustive for 1-2 files x 2 workers and 1 file x 3 workers in thorough); non-trivial = at least two non-empty parts merged, or an empty part merged, or an idle worker")
+        "delivery of the work items (interleavings of deliveries and worker queue operations on the real worker code, sampled in both tiers; "
+        "about a third of them over sources of MIXED rooting (per-tree [&R]/[&U] tokens, inside one file or between files), where a read fails "
+        "in a worker, the exception is posted and re-raised: files read by each worker, what each worker posts first, the parent's and the serial "
+        "run's outcome are compared with the model; "
+        "exhaustive for 1-2 files x 2 workers, 1 file x 3 workers, no file x 3 workers and 2 mixed-rooting files x 2 workers in thorough); "
+        "non-trivial = at least two non-empty parts merged, or an empty part merged, or an idle worker")
 MODELLED_NOT_VERIFIED = [
     "C06: the Lean TreeArray/SplitDistribution/SumTrees model is hand-written from TreeArray.add_tree/insert/update/extend/"
     "__iadd__/__add__, SplitDistribution.count_splits_on_tree/update/calc_freqs, calculate_log_product_of_split_supports and "
     "TreeProcessor.parallel_analyze_trees; tied to the code by per-history comparison of every stored list, the distribution, "
-    "frequencies, credibility scores and the consensus split set",
+    "frequencies, credibility scores and the consensus split order - and, for their decision kernels (update's no-op / compatibility / "
+    "adoption / concatenation sequence, validate_rooting, the weight and accession kernels of add_tree, the qualifying and first-strict-maximum "
+    "tests of the credibility scores, the per-source burn-in loops of read_from_files and sumtrees._read_into_tree_array, the worker's blocking "
+    "get / None marker / exception posting and the parent's marker count, worker count, awaited-result count and re-raise), by Gen/C06Kernels.lean, "
+    "regenerated from the source on every run and proved equal to the model's definitions (update_bridge ... proto_bridge)",
     "C06: a tree enters the model as its record (rooting, weight, leaf set, (split, length, age) per edge) computed by the harness "
     "from the parent array; bipartition encoding itself is the subject of C01, node ages of C17",
     "C06: the OS scheduler, pickling of TreeArray across processes and queue blocking are not modelled: the model starts where "
     "worker results arrive; a worker dying without posting a result is out of scope",
+    "C06: a worker whose read failed posts the exception and then, having left its loop, ALSO its partial array; the model keeps the first "
+    "item only (the parent re-raises at the exception, which precedes the array on the queue, so the second item is never taken); the "
+    "harness counts these cases and compares the first item",
+    "C06: the list-interface methods that raise NotImplementedError (__delitem__, __getitem__, __setitem__, clear, index, pop, remove, reverse, "
+    "sort, __reversed__) and the read-only queries __contains__/__iter__/__len__/topologies/bipartition_encoding_frequencies are not operations "
+    "of the model (the harness calls the per-tree queries after every history)",
     "C06: credibility scores are exact products in the model and float log-sums in the code (compared to 1e-9; the maximiser's "
     "topology is compared only when the exact maximiser is unique by a 1e-9 margin)",
 ]
@@ -59,21 +75,30 @@ EXPLANATION = ("Theorems (Props/C06.lean) about the definitions drv_c06 runs: al
                "self-merges included, array i holds exactly the trees the history put there and equals their serial accession; nothing "
                "is rejected), histories_agree (two compatible histories leaving the same trees up to order in two arrays leave the same "
                "observable and rows), sumtrees_schedule_independent, freq_of_obs, scores_of_obs, mcc_scores_of_obs, mcc_topologies_of_obs. "
-               "consensus_of_obs_partial: proved for the set of candidate splits handed to the tree builder, not for their order; the "
-               "order (insDesc tie-break) and the first-strict-maximum index mccIndex are tied to the code by the correspondence "
-               "(greedy consensus at min_freq 1/4 on tie-rich samples; index compared when the exact maximiser is unique). "
+               "No theorem is _partial any more: consensus_candidates_spec (the candidate list holds exactly the counted splits reaching the threshold) and "
+               "consensus_of_obs (+ _reachable): the sorted candidate list handed to the tree builder, order included, is a function of "
+               "the observable (insertion sort over a total, transitive order antisymmetric on distinct masks). "
                "mcc_index_spec: mccIndex is a maximiser of the scores and the first one, for score fractions with positive denominators; "
                "scores_den_pos proves that hypothesis for every array reachable by any history whose tree weights have positive "
                "denominators; mcc_of_obs: two aligned collections with the same observable and rows up to order report, through "
                "their own mccIndex, trees of the same (rational) score, and of the same topology when the maximiser is unique. "
-               "consensus_of_obs (+ _reachable): the sorted candidate list handed to the tree builder, order included, is a function of "
-               "the observable (insertion sort over a total, transitive order antisymmetric on distinct masks). "
                "history_final_rooting_flags: final settings and rooting of every array. summaries_of_obs / summaries_of_histories: per-split "
-               "multisets, sizes, mean edge length and mean node age are functions of the observable (means also compared with the code). "
+               "multisets, sizes, mean edge length and mean node age are functions of the observable (means also compared with the code; median, sd "
+               "and range are compared with brute force by the oracle only). "
                "The ghost semantics ghostRun is printed by the driver and compared with the harness's book-keeping of held trees. "
                "async_sentinel_every_file_once / sumtrees_async_schedule_independent: queue-level worker protocol with asynchronous "
                "put (Model/C06Proto.lean, driver op async): with blocking get and one end marker per worker every schedule of "
-               "deliveries and worker moves ends with all workers stopped, every file read exactly once, and the serial observable.")
+               "deliveries and worker moves ends with all workers stopped, every file read exactly once, and the serial observable. "
+               "New in ext-3: burnin_per_source (the reading loop with its running offset, reset when the source changes, keeps all but the first "
+               "`burnin` trees of every source, in one call over all sources as in one call per source); async_failures_never_hang (the protocol in "
+               "which a failing read makes the worker post the exception and stop WITHOUT taking its marker still ends, under every schedule and for "
+               "every pattern of failures, with every worker stopped); async_no_failing_read_same_run; collation_reraises_first_exception and "
+               "sumtrees_failing_read_reported (any posted exception makes the parallel run end in an error: no hang, no summary); "
+               "sumtrees_burnin_schedule_independent (the whole pipeline - per-file burn-in in the workers, failing-read protocol, re-raising collation, "
+               ">= 1 workers incl. more workers than files and no file: returns, never fails, serial observable, for sources of one rooting state). "
+               "Tie A bridges to Gen/C06Kernels.lean (regenerated from treecollectionmodel.py and sumtrees.py on every run): update_bridge, validate_bridge, "
+               "weight_bridge, accession_bridge, qualifies_bridge, argmax_bridge, readStep_bridge, readLoop_cons, proto_bridge, runsSerial_bridge. "
+               "Not proved: that a parallel run over sources of mixed rooting fails under EVERY schedule whenever the serial run fails (correspondence only).")
 
 ASYNC_IN_QUICK = True           # asynchronous-delivery schedules are explored in both tiers
 THETA = Fraction(3, 5)          # majority-rule threshold of the brute-force consensus oracle (all candidates compatible)
@@ -789,6 +814,8 @@ def exec_history(ctx, dendropy, case):
                     if name == "add":
                         if op[2] == "append":
                             regs[d].append(tree)
+                        elif op[2] == "add_trees":
+                            regs[d].add_trees(iter([tree]))
                         else:
                             regs[d].add_tree(tree)
                         o_after = o.trees + [(spec, rec)]
@@ -1199,7 +1226,7 @@ def gen_history(rng, max_taxa=7, max_ops=14):
             if rng.random() < 0.3:
                 ops.append(["ins", d, rng.randint(-sizes[d] - 2, sizes[d] + 2), new_tree(d)])
             else:
-                ops.append(["add", d, rng.choice(["append", "add_tree"]), new_tree(d)])
+                ops.append(["add", d, rng.choice(["append", "add_tree", "add_tree", "add_trees"]), new_tree(d)])
             sizes[d] += 1
         elif x < 0.85:
             d = rng.randrange(count)
@@ -1532,6 +1559,15 @@ def effective_rooting(src_rooted, token):
     return token == "R"
 
 
+def tree_token(case, fi, ti):
+    """the rooting token written in front of tree `ti` of file `fi` (per-tree tokens: files mixing rooting states)"""
+    ft = case.get("ftokens")
+    return ft[fi][ti] if ft else case["token"]
+
+
+ROOTING_ERRORS = ("MixedRooting", "IncRooting")
+
+
 class SchedFiles(object):
     """writes the tree files of a schedule case once; reused across schedules"""
 
@@ -1541,8 +1577,8 @@ class SchedFiles(object):
         for i, f in enumerate(case["files"]):
             p = os.path.join(self.dir, "f%d.tre" % i)
             with open(p, "w") as fh:
-                for spec in f:
-                    fh.write(newick(spec, case["token"]) + "\n")
+                for ti, spec in enumerate(f):
+                    fh.write(newick(spec, tree_token(case, i, ti)) + "\n")
             self.paths.append(p)
 
     def close(self):
@@ -1559,13 +1595,16 @@ def exec_sched(ctx, dendropy, case, sf=None, serial_cache=None):
         full = (1 << ntaxa) - 1
         labels = ["t%d" % i for i in range(ntaxa)]
         src = case["rooted"]
-        eff = effective_rooting(src, case["token"])
         flags = list(case.get("flags", [0, 1, 1]))
         uw = flags[2]
         # without --weighted-trees the reader does not even store the weights
         burnin, logfreq = case.get("burnin", 0), case.get("logfreq", 0)
-        # the burn-in is lost by EVERY source, whoever reads it and in whichever call
-        recs = [[record(dict(s, rooted=eff, weight=s["weight"] if uw else None), not flags[1]) for s in f[burnin:]] for f in case["files"]]
+        recs_all = [[record(dict(s, rooted=effective_rooting(src, tree_token(case, fi, ti)), weight=s["weight"] if uw else None), not flags[1])
+                     for ti, s in enumerate(f)] for fi, f in enumerate(case["files"])]
+        # the burn-in is lost by EVERY source, whoever reads it and in whichever call (the oracle's own slicing; the model gets the
+        # complete files and applies the burn-in in its reading loop)
+        recs = [f[burnin:] for f in recs_all]
+        mixed = len({r["rooted"] for f in recs for r in f}) > 1
         nw = case["nworkers"]
         par = ser = None
         perr = serr = None
@@ -1585,19 +1624,37 @@ def exec_sched(ctx, dendropy, case, sf=None, serial_cache=None):
             case = dict(case, trace=[list(x) for x in (sims[0].trace if sims else [])])
             ctx.extra["_last_trace"] = list(sims[0].trace) if sims else []
         taken_by = None
+        posted = None
+        model_files = recs
         if case.get("choices") is not None:
             # the queue-level protocol model: same schedule, same protocol (end-of-work markers seen <=> blocking get)
             sim = sims[0]
             blocking = 1 if sim.used_block else 0
             index = {pth: k for k, pth in enumerate(sf.paths)}
             taken_by = [[index[x] for x, w in sim.taken if w == i and x in index] for i in range(nw)]
-            line = ["async", tu.frac(MODEL_THETA), R(src), str(flags[0]), str(flags[1]), str(uw), str(blocking), str(nw),
-                    str(len(case["choices"]))] + [str(x) for x in case["choices"]] + [str(nw)] + [str(x) for x in case["arrival"]]
+            per = {}
+            for q in sim.queues:
+                for w, x in q.results:
+                    per.setdefault(w, []).append("ok" if not isinstance(x, BaseException) else err_name(x))
+            # the result that counts is the first one a worker posts.  (A worker whose read failed posts the exception and then,
+            # having left its loop, also its partial array; the parent has re-raised by then and never takes the second item.)
+            posted = [per.get(i, ["none"])[0] for i in range(nw)]
+            if any(len(v) > 1 for v in per.values()):
+                ctx.count("sched-async a failing worker also posts its partial array behind the exception")
+            if blocking:
+                # end-marker protocol: the model with failing reads, the burn-in applied by its own reading loop, re-raising collation
+                model_files = recs_all
+                line = ["asyncf", tu.frac(MODEL_THETA), str(burnin), R(src), str(flags[0]), str(flags[1]), str(uw), str(nw),
+                        str(len(case["choices"]))] + [str(x) for x in case["choices"]] + [str(nw)] + [str(x) for x in case["arrival"]]
+            else:
+                line = ["async", tu.frac(MODEL_THETA), R(src), str(flags[0]), str(flags[1]), str(uw), str(blocking), str(nw),
+                        str(len(case["choices"]))] + [str(x) for x in case["choices"]] + [str(nw)] + [str(x) for x in case["arrival"]]
             line += [str(len(recs))]
         else:
-            line = ["sched", tu.frac(MODEL_THETA), R(src), str(flags[0]), str(flags[1]), str(uw), str(nw)] + [str(x) for x in case["arrival"]]
+            model_files = recs_all
+            line = ["schedb", tu.frac(MODEL_THETA), str(burnin), R(src), str(flags[0]), str(flags[1]), str(uw), str(nw)] + [str(x) for x in case["arrival"]]
             line += [str(len(recs))] + [str(x) for x in realised]
-        for f in recs:
+        for f in model_files:
             line.append(str(len(f)))
             for r in f:
                 line += trec_tokens(r)
@@ -1615,9 +1672,22 @@ def exec_sched(ctx, dendropy, case, sf=None, serial_cache=None):
         results = [("ok" if perr is None else err_name(perr)), ("ok" if serr is None else err_name(serr))]
         if taken_by is not None:
             results.append(taken_by)
+            results.append(posted)
         canons = []
         bad = None
-        if serr is not None and perr is not None and type(serr) is type(perr):
+        if mixed:
+            # the trees kept are not compatible in rooting: the statement promises no summary; serial and parallel run must agree
+            # in refusing the input (which of the two rooting errors surfaces depends on who read what and is the model's business)
+            ctx.count("sched mixed-rooting input")
+            hang = isinstance(perr, RuntimeError)
+            if hang:
+                bad = ("sched-hang", "sources of mixed rooting: the serial run %s, the parallel run with %d workers never returns (%s); files->workers %s, queue schedule %s" % (
+                    "raises %s" % type(serr).__name__ if serr is not None else "succeeds", nw, str(perr)[:80], realised, case.get("choices")))
+            elif (serr is None) != (perr is None):
+                bad = ("sched-serial", "sources of mixed rooting: the serial run %s but the parallel run with %d workers %s; files->workers %s, arrival order %s" % (
+                    "succeeds" if serr is None else "raises %s" % type(serr).__name__, nw,
+                    "succeeds" if perr is None else "raises %s" % type(perr).__name__, realised, case["arrival"]))
+        elif serr is not None and perr is not None and type(serr) is type(perr):
             # both runs refuse the input in the same way: nothing to compare (whether the input should be refused is not C06's business)
             ctx.note("sched: serial and parallel run both raised %s" % type(serr).__name__)
             ctx.count("sched both-raise")
@@ -1631,7 +1701,7 @@ def exec_sched(ctx, dendropy, case, sf=None, serial_cache=None):
             bad = ("sched-dropped", "parallel run with %d workers finished without error but file(s) %s were read by no worker (a worker "
                    "that finds the work queue empty while items are still in flight quits); files->workers %s, queue schedule %s" % (
                        nw, dropped, realised, case.get("choices")))
-        if bad is None:
+        if bad is None and not (mixed and (perr is not None or serr is not None)):
             cp, cs = canon_impl(par, float(THETA), full), canon_impl(ser, float(THETA), full)
             qp, qperr = run_queries(par, None)
             qs, qserr = run_queries(ser, None)
@@ -1672,10 +1742,13 @@ def exec_sched(ctx, dendropy, case, sf=None, serial_cache=None):
             ctx.fail(bad[0], bad[1], case)
         idle = nw - len(set(a for a in realised if a < nw))
         is_async = case.get("choices") is not None
-        ctx.case([case["ntaxa"], case["rooted"], case["token"], nw, case.get("assignment"), case.get("trace"), case["arrival"],
+        ctx.case([case["ntaxa"], case["rooted"], case["token"], case.get("ftokens"), burnin, nw, case.get("assignment"), case.get("trace"), case["arrival"],
                   [[s["toks"] for s in f] for f in case["files"]]], idle > 0 or len(set(realised)) > 1,
                  sample=dict(case, files="<%s trees>" % [len(f) for f in case["files"]]), kind="sched-async" if is_async else "sched")
         ctx.count("sched%s idle=%d" % ("-async" if is_async else "", idle))
+        ctx.count("sched files=%d%s" % (len(case["files"]), " (more workers than files)" if nw > len(case["files"]) else ""))
+        if burnin and any(len(f) <= burnin for f in case["files"]):
+            ctx.count("sched a file entirely burnt in")
         return " ".join(line), results, canons
     finally:
         if own:
@@ -1734,6 +1807,12 @@ def compare_async(ctx, case, results, canons, out):
     if mtaken != results[2]:
         ctx.disagree("async files read by each worker", case, results[2], mtaken)
         return
+    withf = len(results) > 3 and results[3] is not None and ("S" in toks)
+    if withf:
+        mposted = p.lst(p.tok)
+        if results[0] != "Internal(RuntimeError)" and mposted != results[3]:
+            ctx.disagree("async result posted by each worker (array or exception)", case, results[3], mposted)
+            return
     r = p.tok()
     impl = "hang" if results[0] == "Internal(RuntimeError)" else results[0]
     if r != impl:
@@ -1746,6 +1825,15 @@ def compare_async(ctx, case, results, canons, out):
             if ci[key] != cm[key]:
                 ctx.disagree("async master %s" % key, case, ci[key], cm[key])
                 return
+    elif r == "ok":
+        parse_dump(p)
+    if withf:
+        if p.tok() != "S":
+            ctx.disagree("async output format", case, "S", "?")
+            return
+        mser = p.tok()
+        if mser != results[1]:
+            ctx.disagree("async: outcome of the serial run over the same sources", case, results[1], mser)
 
 
 def gen_sched_files(rng, nfiles, max_taxa=6, max_trees=3, allow_empty_file=False):
@@ -1818,11 +1906,29 @@ def explore_async(ctx, dendropy, pending, base, nw, arrival, limit, deadline):
     return n, complete
 
 
+def mix_rootings(rng, base):
+    """sources of mixed rooting (the failing-read path): per-tree tokens, the rooting left to the tokens"""
+    style = rng.random()
+    ft = []
+    for fi, f in enumerate(base["files"]):
+        if style < 0.5 and len(base["files"]) >= 2:
+            t = ["R", "U"][fi % 2] if fi < 2 else rng.choice(["R", "U", None])   # every file homogeneous, the files differ
+            ft.append([t] * len(f))
+        else:
+            ft.append([rng.choice(["R", "U", "U", None]) for _ in f])   # files mixed inside
+            if len(f) >= 2 and fi == 0:
+                ft[-1][-1], ft[-1][-2] = "R", "U"
+    base.update(rooted=None, token=None, ftokens=ft)
+    return base
+
+
 def sample_async(ctx, dendropy, pending, rng, count, deadline):
     k = 0
     while k < count and ctx.time_left() > deadline:
-        nfiles = rng.randint(1, 3)
-        base = gen_sched_files(rng, nfiles, max_taxa=5, max_trees=2)
+        nfiles = rng.choice([0, 1, 1, 2, 2, 3, 3])
+        base = gen_sched_files(rng, nfiles, max_taxa=5, max_trees=rng.choice([2, 2, 3]))
+        if nfiles and rng.random() < 0.3:
+            base = mix_rootings(rng, base)
         sf = SchedFiles(base)
         cache = {}
         try:
@@ -1891,13 +1997,13 @@ def exec_cli(ctx, dendropy, case):
 def run(ctx):
     dendropy = __import__("dendropy")
     rng = ctx.rng
-    ctx.set_budget(30, 780)
+    ctx.set_budget(42, 640)
     pending = []
     # ---- the two hand-reproduced defects, always first (cheap, deterministic)
     for case in seed_cases():
         run_any(ctx, dendropy, case, pending)
     # ---- random histories
-    t_hist = ctx.pick(15, 200)
+    t_hist = ctx.pick(13, 200)
     n = 0
     while n < ctx.pick(700, 12000) and (ctx.budget_s - ctx.time_left()) < t_hist:
         case = gen_history(rng, max_taxa=ctx.pick(7, 9), max_ops=ctx.pick(14, 20))
@@ -1907,8 +2013,9 @@ def run(ctx):
             flush(ctx, pending)
     flush(ctx, pending)
     # ---- random partition/arrival-order cases (clause b head-on)
+    t_part = (ctx.budget_s - ctx.time_left()) + ctx.pick(7, 400)
     for _ in range(ctx.pick(120, 1500)):
-        if ctx.out_of_time():
+        if ctx.out_of_time() or (ctx.budget_s - ctx.time_left()) > t_part:
             break
         run_hist_case(ctx, dendropy, gen_partition_case(rng), pending, "partition")
         if len(pending) >= 200:
@@ -1938,7 +2045,8 @@ def run(ctx):
     flush(ctx, pending)
     # ---- schedules with asynchronous delivery of the work items (multiprocessing.Queue.put returns before the item is in the pipe)
     if ASYNC_IN_QUICK or ctx.tier == "thorough":
-        sample_async(ctx, dendropy, pending, rng, ctx.pick(60, 400), ctx.pick(3, 420))
+        # quick: until the budget is used up; thorough: a slice of 45 s (the exhaustive explorations follow)
+        sample_async(ctx, dendropy, pending, rng, ctx.pick(60, 400), ctx.pick(3, ctx.time_left() - 45))
     ctx.extra.pop("_last_trace", None)
     if ctx.tier == "thorough":
         thorough(ctx, dendropy, pending)
@@ -2011,8 +2119,29 @@ def run_any(ctx, dendropy, case, pending):
         exec_cli(ctx, dendropy, case)
 
 
+def exhaustive_async(ctx, dendropy, pending, configs, adone, deadline):
+    rng = ctx.rng
+    acount = 0
+    for nfiles, nw, mixed in configs:
+        base = gen_sched_files(rng, nfiles, max_taxa=5, max_trees=2)
+        base.update(rooted=None, token=None)
+        if mixed:
+            base = mix_rootings(rng, base)
+            base["ftokens"] = [["R"] * len(f) if i == 0 else ["U", "R"][:len(f)] for i, f in enumerate(base["files"])]
+        n, complete = explore_async(ctx, dendropy, pending, base, nw, list(range(nw)) if not mixed else list(reversed(range(nw))),
+                                    3000 if nw == 2 else 1500, deadline)
+        acount += n
+        adone.append("%d files x %d workers%s: %d interleavings%s" % (nfiles, nw, " (mixed rooting)" if mixed else "", n, "" if complete else " (cut off)"))
+    flush(ctx, pending)
+    ctx.extra.pop("_last_trace", None)
+    return acount
+
+
 def thorough(ctx, dendropy, pending):
     rng = ctx.rng
+    adone = []
+    # (0) every interleaving of deliveries and queue operations for the cheapest configurations, first of all
+    exhaustive_async(ctx, dendropy, pending, ((1, 2, False), (0, 3, False), (2, 2, True)), adone, 60)
     # (1) every partition of <= 4 trees into <= 3 labelled parts x every arrival order x merge op, both rootings, implicit/explicit
     count = 0
     for ntrees in range(0, 5):
@@ -2062,16 +2191,8 @@ def thorough(ctx, dendropy, pending):
                 sf.close()
     flush(ctx, pending)
     ctx.extra["exhaustive_schedules"] = "%d schedules: every (file->worker assignment, arrival order) for 1-3 files x 2-4 workers, implicit and random rooting" % scount
-    # (2b) every interleaving of deliveries and queue operations for the smallest configurations
-    acount, adone = 0, []
-    for nfiles, nw in ((1, 2), (2, 2), (1, 3)):
-        base = gen_sched_files(rng, nfiles, max_taxa=5, max_trees=2)
-        base.update(rooted=None, token=None)
-        n, complete = explore_async(ctx, dendropy, pending, base, nw, list(range(nw)), 3000, 200)
-        acount += n
-        adone.append("%d files x %d workers: %d interleavings%s" % (nfiles, nw, n, "" if complete else " (cut off)"))
-    flush(ctx, pending)
-    ctx.extra.pop("_last_trace", None)
+    # (2b) ... and for the next larger ones
+    exhaustive_async(ctx, dendropy, pending, ((2, 2, False), (1, 3, False)), adone, 150)
     ctx.extra["exhaustive_async"] = "; ".join(adone)
     # (3) genuine multi-process runs of the command-line program, each repeated (scheduling differs from run to run)
     for mp in (["-M"], ["-m", "2"], ["-m", "3"]):
@@ -2085,6 +2206,74 @@ def thorough(ctx, dendropy, pending):
             except subprocess.TimeoutExpired:
                 ctx.note("cli %s timed out" % mp)
     ctx.extra["exhaustive"] = False
+
+
+
+def decision_table_cases():
+    """every combination the decision kernel of update / extend / += / + distinguishes: destination and source empty or not, same or
+    different rooting state, same settings or one of the three differing, declared rooting given or not"""
+    t = {True: {"toks": "7 -1 0 1 1 0 4 4 - - 0 1 - 2 3 N 1 1/2 1 2 1 1 - - - - - - -".split(), "rooted": True, "weight": None},
+         False: {"toks": "7 -1 0 1 1 0 4 4 - - 0 2 - 1 3 N 1 1/2 1 2 1 1 - - - - - - -".split(), "rooted": False, "weight": "3/2"}}
+    out = []
+    for op in ("upd", "ext", "iadd", "plus"):
+        for na in (0, 1, 2):
+            for nb in (0, 1):
+                for ra, rb in ((True, True), (False, False), (True, False)):
+                    for diff in (None, 0, 2):
+                        for decl in (None, ra):
+                            fa = [0, 1, 1]
+                            fb = list(fa)
+                            if diff is not None:
+                                fb[diff] = 1 - fb[diff]
+                            ops = [["new", decl, *fa], ["new", None, *fb]]
+                            ops += [["add", 0, "add_tree", t[ra]] for _ in range(na)]
+                            ops += [["add", 1, "add_tree", t[rb]] for _ in range(nb)]
+                            ops.append([op, 0, 1])
+                            ops.append([op, 1, 0])
+                            out.append({"mode": "hist", "ntaxa": 4, "ops": ops})
+    return out
+
+
+def burnin_cases():
+    t = {"toks": "7 -1 0 1 1 0 4 4 - - 0 1 - 2 3 N 1 1/2 1 2 1 1 - - - - - - -".split(), "rooted": True, "weight": None}
+    u = {"toks": "7 -1 0 1 1 0 4 4 - - 0 2 - 1 3 N 1 1/2 1 2 1 1 - - - - - - -".split(), "rooted": True, "weight": None}
+    out = []
+    for offset in (0, 1, 2, 3):
+        for how in ("files", "handles", "data"):
+            for files in ([[t, u, t]], [[t, u], [u, t, t]], [[t], [u, u, t], [t, u]]):
+                out.append({"mode": "hist", "ntaxa": 4, "ops": [["new", None, 0, 1, 1], ["read", 0, offset, files, how, True]]})
+    return out
+
+
+def search(ctx, broken):
+    """an obligation broke (a kernel regenerated from the source no longer equals the model's, the generator met source outside
+    its subset, a theorem no longer builds) or the model and the code disagreed: look for an input on which the real code
+    contradicts the statement, kernel by kernel - the merge decision table, burn-in reads, first-maximum ties, and every
+    interleaving of the worker protocol for the smallest configurations (sources of one rooting state and of mixed rooting)"""
+    dendropy = __import__("dendropy")
+    pending = []
+    before = len(ctx.failures)
+    for case in decision_table_cases() + burnin_cases():
+        run_hist_case(ctx, dendropy, case, pending, "search")
+        if len(pending) >= 200:
+            flush(ctx, pending)
+    flush(ctx, pending)
+    ctx.count("search: decision table + burn-in histories")
+    if len(ctx.failures) > before:
+        return
+    rng = ctx.rng
+    for nfiles, nw, mixed in ((1, 2, False), (2, 2, False), (0, 2, False), (2, 2, True), (1, 3, False), (2, 3, False)):
+        base = gen_sched_files(rng, nfiles, max_taxa=5, max_trees=2)
+        base.update(rooted=None, token=None, burnin=nfiles % 2)
+        if mixed:
+            base = mix_rootings(rng, base)
+            base["ftokens"] = [["R"] * len(f) if i == 0 else ["U"] * len(f) for i, f in enumerate(base["files"])]
+        n, complete = explore_async(ctx, dendropy, pending, base, nw, list(reversed(range(nw))), 250, -1e9)
+        flush(ctx, pending)
+        ctx.count("search: %d interleavings of %d files x %d workers" % (n, nfiles, nw))
+        if len(ctx.failures) > before:
+            return
+    ctx.extra.pop("_last_trace", None)
 
 
 def replay(ctx, rec):
